@@ -318,6 +318,12 @@ func c20ElemGuards(p *Program, r *Report, m *vmModel) {
 					r.Fail("C20.R3", fmt.Sprintf("%s|Elem #%d on the tested side", funcName(fn), k), p.Pos(c.Pos()), "Elem() can be reached on "+why+": the test that guards the unwrapping or dereference is flipped")
 					continue
 				}
+				if !kindOK && !sawNil && elemEnteredFromSomeTest(b, same) {
+					n++
+					k++
+					r.Fail("C20.R3", fmt.Sprintf("%s|Elem #%d on the tested side", funcName(fn), k), p.Pos(c.Pos()), "Elem() is reached from a kind test of the value AND from another condition (a disjunction): the value can arrive here without being an interface or pointer")
+					continue
+				}
 				if !kindOK && !sawNil {
 					continue // no test at all on this path: typed knowledge (a pointer by type, a helper's contract) - not this rule's business
 				}
@@ -423,4 +429,29 @@ func elemEnteredFromBadEdge(b *ssa.BasicBlock, same func(ssa.Value) bool) string
 		}
 	}
 	return ""
+}
+
+// elemEnteredFromSomeTest: at least one edge entering b is a kind or nil test of the value (so b is guarded, but not by kind tests alone).
+func elemEnteredFromSomeTest(b *ssa.BasicBlock, same func(ssa.Value) bool) bool {
+	for _, pr := range b.Preds {
+		iff, ok := pr.Instrs[len(pr.Instrs)-1].(*ssa.If)
+		if !ok {
+			continue
+		}
+		cond := iff.Cond
+		if u, ok := cond.(*ssa.UnOp); ok && u.Op == token.NOT {
+			cond = u.X
+		}
+		switch x := cond.(type) {
+		case *ssa.BinOp:
+			if kc, ok := x.X.(*ssa.Call); ok && reflectMethod(kc) == "Kind" && same(kc.Call.Args[0]) {
+				return true
+			}
+		case *ssa.Call:
+			if reflectMethod(x) == "IsNil" && same(x.Call.Args[0]) {
+				return true
+			}
+		}
+	}
+	return false
 }
